@@ -17,7 +17,13 @@
 (*   {"ev":"rep"}                                   end of a workload repetition            *)
 (*   {"ev":"panic"|"crash"|"timeout", ...}          the allocator did not return            *)
 (*   {"ev":"end"}                                   end of run: full invariants             *)
+(*   {"ev":"heap","segs":[{"base":b,"size":s,"chunks":[[addr,size,kind],..]},..]}           *)
+(*        the chunk layout the allocator reports after a call (cfg-only accessors): judged  *)
+(*        against DlHeap.tla (structure, refinement to live/mapped, chunk-exact reuse);     *)
+(*        failures are collected separately as MODEL DRIFT, they are never violations.      *)
 EXTENDS AllocAbs, TLC, Json, IOUtils, SequencesExt
+
+D == INSTANCE DlHeap WITH Al <- 16, Ovh <- 8, MinChunk <- 32, Foot <- 80, RecSize <- 48, Tails <- {32, 48}
 
 Rec == ndJsonDeserialize(IOEnv.TRACE)
 NRec == Len(Rec)
@@ -29,8 +35,11 @@ VARIABLES
     c04,    \* the run is a C04 workload run (envelope applies)
     bad,    \* violations: sequence of [run, line, inv]
     nbad,   \* violating steps in the current run
+    heap,   \* last chunk layout reported by the allocator (<<>> if none in this run)
+    hknown, \* a layout was reported in this run
+    drift,  \* model drift: sequence of [run, line, what]
     done
-tvars == <<i, run, c04, bad, nbad, done>>
+tvars == <<i, run, c04, bad, nbad, heap, hknown, drift, done>>
 
 Names == {"Aligned", "Disjoint", "Accessible", "Intact", "NullJustified", "OomClean", "Returns",
           "ReleaseOnce", "NoGratuitousMap", "SteadyState", "Envelope"}
@@ -77,6 +86,17 @@ Apply(e) ==
 TInit ==
     /\ Init
     /\ i = 0 /\ run = 0 /\ c04 = FALSE /\ bad = <<>> /\ nbad = 0 /\ done = FALSE
+    /\ heap = <<>> /\ hknown = FALSE /\ drift = <<>>
+
+\* model drift observed at this event (evaluated on the state BEFORE the event is applied:
+\* a heap event does not change live/mapped, an OS request is judged against the layout
+\* reported after the previous call)
+DriftAt(e) ==
+    IF e.ev = "heap" THEN D!Drift(e.segs, live, mapped)
+    ELSE IF e.ev = "os" /\ e.call = "mmap" /\ hknown /\ call.op \in AllocOps \cup {"realloc"}
+                        /\ D!HasRoom(heap, call.size, call.align)
+         THEN {"ExactReuse"}
+    ELSE {}
 
 Step ==
     /\ i < NRec
@@ -85,6 +105,11 @@ Step ==
         /\ Apply(e)
         /\ run' = IF e.ev = "reset" THEN e.run ELSE run
         /\ c04' = IF e.ev = "reset" THEN e.c04 ELSE c04
+        /\ heap' = IF e.ev = "reset" THEN <<>> ELSE IF e.ev = "heap" THEN e.segs ELSE heap
+        /\ hknown' = IF e.ev = "reset" THEN FALSE ELSE IF e.ev = "heap" THEN TRUE ELSE hknown
+        /\ LET d == DriftAt(e) IN
+             drift' = IF d = {} \/ Len(drift) >= 200 THEN drift
+                      ELSE Append(drift, [run |-> run', line |-> i + 1, what |-> SetToSeq(d)])
         /\ LET v == Violated'
                n0 == IF e.ev = "reset" THEN 0 ELSE nbad
            IN  /\ nbad' = IF v = {} THEN n0 ELSE n0 + 1
@@ -95,8 +120,8 @@ Step ==
 Finish ==
     /\ i = NRec /\ ~done
     /\ done' = TRUE
-    /\ PrintT(<<"VERDICT", ToJson([n |-> NRec, runs |-> run, bad |-> bad])>>)
-    /\ UNCHANGED <<vars, i, run, c04, bad, nbad>>
+    /\ PrintT(<<"VERDICT", ToJson([n |-> NRec, runs |-> run, bad |-> bad, drift |-> drift])>>)
+    /\ UNCHANGED <<vars, i, run, c04, bad, nbad, heap, hknown, drift>>
 
 TNext == Step \/ Finish
 =============================================================================
